@@ -5,7 +5,7 @@ import LunarVerif.Spec.C06
 Ops (see `harness/go/cmd/c06`):
   cfg size=<n> ttl=<s> max=<m> win=<s> t0=<ms> mode=mock|real
   arrive id=<k> prio=<p|none>          → queued | blocked
-  arrive-begin id=<k> prio=<p|none>    → at-gate | blocked     (held at `queue.after-slot-check`)
+  arrive-begin id=<k> prio=<p|none>    → at-gate | blocked     (slot reserved; held at `queue.after-slot-check`)
   arrive-end id=<k>                    → queued                (k = oldest at the gate)
   tick                                 → to=<ids|-> log=<events|->
   lock s=<struct> f=<field> fn=<fn>    → <mutexes held at every access>  (source-level fact)
@@ -317,9 +317,7 @@ def judgeFinish (s : JudgeSt) : String :=
     let h := s.hist.reverse
     if s.late then "fail - ttl-wall-clock-bound-missed"
     else if holds s.cfg h then "ok"
-    else
-      let f := match finding s.cfg h with | some f => f | none => "-"
-      s!"fail {f} {firstBad s.cfg h}"
+    else s!"fail - {firstBad s.cfg h}"
 
 def main (args : List String) : IO Unit :=
   match args with
